@@ -699,7 +699,7 @@ fn gen_round(dec: &mut Dec) -> Round {
 }
 
 /// The growth oracle over the per-window maxima of the mapped byte total.
-fn growth_violation(windows: &[usize], m_end: usize, peak_live: usize, rounds: usize) -> Option<Violation> {
+pub(crate) fn growth_violation(windows: &[usize], m_end: usize, peak_live: usize, rounds: usize) -> Option<Violation> {
     if windows.len() < 5 {
         return None;
     }
@@ -885,6 +885,10 @@ impl Check for C04 {
         json!({"real": ["tiny_std::allocator::dlmalloc::Dlmalloc", "tiny_std::sync::Mutex (threaded variant)"], "stub": ["mmap/mremap/munmap (memory provider)", "futex and threads (threaded variant)", "the GlobalAlloc wrapper (GlobalDlMalloc) is replaced by an equivalent Mutex<Dlmalloc> in the harness"]})
     }
     fn run(&self, case: u64, dec: Dec, opts: &RunOpts) -> RunOut {
+        // every 12th case: the private GlobalDlMalloc wrapper itself, real threads, engine B
+        if case % 12 == 11 {
+            return crate::c04b::c04_engine_b(case, dec, opts);
+        }
         let rounds = if opts.tier == Tier::Thorough && case % 8 == 0 { 5000 } else { 200 };
         if case % 6 == 5 {
             run_footprint_threaded(dec, opts, rounds.min(400))
